@@ -30,4 +30,11 @@ theorem tree_is_dict :
   simp only [Gen.PT.nuclides, List.all_append, tree_rows_q0, tree_rows_q1, tree_rows_q2,
     tree_rows_q3, Bool.and_self]
 
+/-- **The float form of every tabulated mass is the nearest double to its Decimal** (the model's
+`float(Decimal)` — `Dec.toF64` — checked against an independent nearest-with-ties-to-even predicate,
+for all nuclide rows; the correspondence compares these bit patterns with the implementation's). -/
+theorem masses_float_nearest : Gen.PT.nuclides.all massFloatOk = true := by
+  simp only [Gen.PT.nuclides, List.all_append, masses_float_q0, masses_float_q1, masses_float_q2,
+    masses_float_q3, Bool.and_self]
+
 end QcelVerif.PT
